@@ -965,6 +965,7 @@ func typeOperandCase(rt *rapid.T) *modelCase {
 		{"make(chan hv1)", "make(chan hv1)"}, {"make(chan<- hv1)", "make(chan<- hv1)"}, {"make(<-chan hv1)", "make(<-chan hv1)"},
 		{"new(*hv1)", "new(*hv1)"}, {"make([]hv1, 0)", "make([]hv1, 0)"}, {"make(map[string]hv1)", "make(map[string]hv1)"},
 		{"mk2(func(hv1) hv1 { panic(0) })", "mk2(func(hv1) hv1 { panic(0) })"}, {"make(chan chan hv1)", "make(chan chan hv1)"},
+		{"hv1(nil)", "hv1(nil)"}, {"use(hv1(c0), hv1(c1))", "use(hv1(c0), hv1(c1))"},
 	}
 	w := wraps[rapid.IntRange(0, len(wraps)-1).Draw(rt, "typeWrap")]
 	var body strings.Builder
